@@ -85,6 +85,8 @@ func init() {
 		"strings.ToUpper":                func(fr *frame, a []value) value { return strings.ToUpper(fr.cstr(a[0])) },
 		"strings.EqualFold":              func(fr *frame, a []value) value { return strings.EqualFold(fr.cstr(a[0]), fr.cstr(a[1])) },
 		"strings.Clone":                  func(fr *frame, a []value) value { return a[0] },
+		"internal/stringslite.Clone":     func(fr *frame, a []value) value { return a[0] },
+		"strconv.cloneString":            func(fr *frame, a []value) value { return a[0] },
 		"bytes.Equal":                    bytesEqual,
 		"bytes.IndexByte":                func(fr *frame, a []value) value { return strings.IndexByte(fr.cbytes(a[0]), fr.cbyte(a[1])) },
 		"bytes.Index":                    func(fr *frame, a []value) value { return strings.Index(fr.cbytes(a[0]), fr.cbytes(a[1])) },
